@@ -646,7 +646,7 @@ def write_unstructured(path, G, point_ids, cell_ids, cfg, poly):
 def run_pfile(G, part, d, cfgd, poly):
     from fieldcompare.io import read_field_data
     os.makedirs(d, exist_ok=True)
-    cfg = V.Cfg(**cfgd)
+    cfg = V.Cfg(**{k: v for k, v in cfgd.items() if k != "decoy"})
     ext = "vtp" if poly else "vtu"
     names = []
     for i, p in enumerate(part["pieces"]):
@@ -665,12 +665,23 @@ def run_pfile(G, part, d, cfgd, poly):
         except Exception as e:          # noqa: BLE001
             out["whole"] = {"error": f"{type(e).__name__}: {e}"}
             whole = None
+        cwd = os.getcwd()
         try:
+            if cfgd.get("decoy") and len(names) >= 2:
+                # the working directory holds files named like the pieces but with other content (the pieces in rotated order):
+                # piece paths of an index file are relative to the index file, whatever the working directory contains
+                dd = os.path.join(d, "cwd_with_decoys")
+                os.makedirs(dd)
+                for a_, b_ in zip(names, names[1:] + names[:1]):
+                    shutil.copy(os.path.join(d, b_), os.path.join(dd, a_))
+                os.chdir(dd)
             par = read_field_data(os.path.join(d, f"all.p{ext}"))
             out["parallel"] = extract(par, G)
         except Exception as e:          # noqa: BLE001
             out["parallel"] = {"error": f"{type(e).__name__}: {e}"}
             par = None
+        finally:
+            os.chdir(cwd)
         if whole is not None and par is not None:
             try:
                 from fieldcompare.mesh import MeshFieldsComparator
@@ -714,6 +725,8 @@ def stream_pfiles(ctx, n_vtu, n_vtp):
                 p["types"] = sorted(p["types"])
         cfgd = rng.choice([dict(fmt="ascii"), dict(fmt="binary"), dict(fmt="appended-base64", compressor="zlib"),
                            dict(fmt="appended-raw", header_type="UInt64")])
+        if rng.random() < 0.2:
+            cfgd = dict(cfgd, decoy=True)
         todo.append((G, part, cfgd, poly))
     exprs = []
     for i, (G, part, cfgd, poly) in enumerate(todo):
@@ -724,6 +737,8 @@ def stream_pfiles(ctx, n_vtu, n_vtp):
         ctx.count(("pvtp" if poly else "pvtu") + ":mode:" + part["mode"])
         ctx.count(("pvtp" if poly else "pvtu") + ":piece-without-new-point:" + ("yes" if nf else "no"))
         ctx.count("pfile:encoding:" + cfgd["fmt"])
+        if cfgd.get("decoy"):
+            ctx.count("pfile:working directory holds same-named decoy pieces")
         check_pfile(ctx, G, part, cfgd, poly, out, case)
         exprs.append((G, part, out))
         ctx.traces_validated += 1
